@@ -210,6 +210,19 @@ class C19(Prop):
                         acc.violation("constructor-crashed", f"{cname}({t.name}) raised {type(exc).__name__}", {"class": cname, "type": t.name})
                         continue
                     if accepted and should and st is dv.DeviceState.ON:
+                        # ... and whatever the wall clock reads when the object is built (it stamps itself with the current time)
+                        from ..ref import clock as _clock
+
+                        for frac in (0.0, 0.25, 0.9994, 0.9995, 0.99975, 0.999999):
+                            acc.ev()
+                            acc.distinct()
+                            try:
+                                with _clock.virtual_time(1_790_000_000 + frac):
+                                    cls(**kw)
+                            except Exception as exc:
+                                acc.violation("class-refuses-own-category", f"{cname}({t.name}) built at second fraction {frac} raised {type(exc).__name__}: {exc}",
+                                              {"class": cname, "type": t.name, "fraction": frac})
+                    if accepted and should and st is dv.DeviceState.ON:
                         # its own category must be accepted whatever legitimate values the other fields carry
                         for variant in FIELD_VARIANTS:
                             kw2 = dict(kw)
